@@ -47,3 +47,17 @@ Theorem C09_universe_column_is_child_price : forall (A : Type) inow (ks : list (
   exists col', In (g_id gk, col') (write_ucols inow ks u) /\ nth inow col' None = Some (g_price gk).
 Proof. exact universe_column_is_child_price. Qed.
 Print Assumptions C09_universe_column_is_child_price.
+
+(* every date: the trajectory of the copy over any list of dates is the trajectory of Backtest.run's loop body (update;
+   if not bankrupt: run the stack, update) followed, date by date, by the refresh a price read performs — which does
+   nothing on a fresh tree; and Backtest.run's own loop is that same body folded over the dates *)
+Theorem C09_paper_trajectory_is_backtest_loop_partial : forall N (e : env N) (l : nat) (rows : list nat) (p : tree N (astate N)),
+  fold_dates N (fun i => bt_paper_step e (S l) (Some i)) rows p =
+  fold_dates N (fun i q => bind (loop_body N e l i q) (refresh (bt_paper_step e l))) rows p.
+Proof. exact paper_run_is_backtest_loop. Qed.
+Print Assumptions C09_paper_trajectory_is_backtest_loop_partial.
+
+Theorem C09_backtest_run_is_the_same_loop_body : forall N (e : env N) (rows : list nat) (tr : tree N (astate N)),
+  bt_loop e rows tr = fold_dates N (loop_body N e bt_level) rows tr.
+Proof. exact bt_loop_is_loop_body. Qed.
+Print Assumptions C09_backtest_run_is_the_same_loop_body.
